@@ -809,32 +809,51 @@ func findRangeLoops(fn *ssa.Function) []rangeLoop {
 		if len(b.Instrs) < 4 {
 			continue
 		}
-		phi, ok := b.Instrs[0].(*ssa.Phi)
+		iff, ok := b.Instrs[len(b.Instrs)-1].(*ssa.If)
 		if !ok {
 			continue
 		}
-		startsMinus1 := false
-		for _, e := range phi.Edges {
-			if v, ok := intConst(e); ok && v == -1 {
-				startsMinus1 = true
-			}
-		}
-		if !startsMinus1 {
+		cmp, ok := iff.Cond.(*ssa.BinOp)
+		if !ok || cmp.Op != token.LSS || cmp.Block() != b {
 			continue
 		}
-		inc, ok := b.Instrs[1].(*ssa.BinOp)
-		if !ok || inc.Op != token.ADD || inc.X != ssa.Value(phi) {
+		inc, ok := cmp.X.(*ssa.BinOp)
+		if !ok || inc.Op != token.ADD || inc.Block() != b {
 			continue
 		}
 		if one, ok := intConst(inc.Y); !ok || one != 1 {
 			continue
 		}
-		cmp, ok := b.Instrs[2].(*ssa.BinOp)
-		if !ok || cmp.Op != token.LSS || cmp.X != ssa.Value(inc) {
+		phi, ok := inc.X.(*ssa.Phi)
+		if !ok || phi.Block() != b {
 			continue
 		}
-		iff, ok := b.Instrs[3].(*ssa.If)
-		if !ok || iff.Cond != ssa.Value(cmp) {
+		startsMinus1, backEdge := false, false
+		for _, e := range phi.Edges {
+			if v, ok := intConst(e); ok && v == -1 {
+				startsMinus1 = true
+			}
+			if e == ssa.Value(inc) {
+				backEdge = true
+			}
+		}
+		if !startsMinus1 || !backEdge {
+			continue
+		}
+		// the block holds only phis, the increment, the comparison and the branch
+		clean := true
+		for _, in := range b.Instrs {
+			switch in.(type) {
+			case *ssa.Phi, *ssa.If, *ssa.DebugRef:
+			case *ssa.BinOp:
+				if in != ssa.Instruction(inc) && in != ssa.Instruction(cmp) {
+					clean = false
+				}
+			default:
+				clean = false
+			}
+		}
+		if !clean {
 			continue
 		}
 		rl := rangeLoop{header: b, body: b.Succs[0], done: b.Succs[1], idx: inc}
@@ -917,4 +936,85 @@ func valueOnPath(v ssa.Value, path []ssa.Instruction) ssa.Value {
 		}
 	}
 	return v
+}
+
+// walkPathsP: like walkPaths, but the edge filter sees the path walked so far,
+// so that infeasible edges can be pruned after resolving phis along the path.
+func walkPathsP(start Loc, terminal func(ssa.Instruction) bool, edgeOK func(b *ssa.BasicBlock, succ int, path []ssa.Instruction) bool, budget int, visit func(path []ssa.Instruction, end pathEnd)) error {
+	n := 0
+	onPath := map[*ssa.BasicBlock]bool{}
+	var path []ssa.Instruction
+	var rec func(b *ssa.BasicBlock, from int) error
+	rec = func(b *ssa.BasicBlock, from int) error {
+		mark := len(path)
+		defer func() { path = path[:mark] }()
+		for i := from; i < len(b.Instrs); i++ {
+			in := b.Instrs[i]
+			path = append(path, in)
+			_, isRet := in.(*ssa.Return)
+			_, isPanic := in.(*ssa.Panic)
+			if isRet || isPanic || (terminal != nil && terminal(in)) {
+				n++
+				if n > budget {
+					return errTooManyPaths
+				}
+				visit(path, endTerminal)
+				return nil
+			}
+		}
+		if from == 0 {
+			onPath[b] = true
+			defer delete(onPath, b)
+		}
+		for si, s := range b.Succs {
+			if edgeOK != nil && !edgeOK(b, si, path) {
+				continue
+			}
+			if onPath[s] {
+				n++
+				if n > budget {
+					return errTooManyPaths
+				}
+				visit(path, endCycle)
+				continue
+			}
+			if err := rec(s, 0); err != nil {
+				return err
+			}
+		}
+		return nil
+	}
+	return rec(start.B, start.I)
+}
+
+// phiFeasible prunes edges whose condition is decided once phis are resolved
+// along the path: `x != nil` with x a phi of nil / MakeInterface, and
+// comparisons of two constants.
+func phiFeasible(b *ssa.BasicBlock, succ int, path []ssa.Instruction) bool {
+	c, truth, ok := edgeAssertion(b, succ)
+	if !ok {
+		return true
+	}
+	if x, eq, isN := nilCompare(c); isN {
+		v := valueOnPath(x, path)
+		switch v.(type) {
+		case *ssa.MakeInterface, *ssa.Alloc, *ssa.MakeSlice, *ssa.MakeMap, *ssa.MakeClosure, *ssa.FieldAddr:
+			return eq != truth // x is non-nil: edge asserting x == nil infeasible
+		case *ssa.Const:
+			if isNilConst(v) {
+				return eq == truth
+			}
+		}
+		return true
+	}
+	if bo, isB := c.(*ssa.BinOp); isB && (bo.Op == token.EQL || bo.Op == token.NEQ) {
+		x, y := valueOnPath(bo.X, path), valueOnPath(bo.Y, path)
+		cx, okx := constOf(x)
+		cy, oky := constOf(y)
+		if okx && oky && cx.Value != nil && cy.Value != nil {
+			same := constant.Compare(cx.Value, token.EQL, cy.Value)
+			return (same == (bo.Op == token.EQL)) == truth
+		}
+	}
+	return true
 }
